@@ -100,7 +100,7 @@ def run(ctx):
                  "distinct text in which a CDecay creates a table")
     batch = Batch(ctx["driver_ok"])
     names_all = [str(k) for k in EvtGenName2PDGIDBiMap._to_map.keys()]
-    n_docs = 300 if tier == "quick" else 3000
+    n_docs = 200 if tier == "quick" else 3000
 
     hist = [0]
 
@@ -196,7 +196,7 @@ def run(ctx):
     # small scope, exhaustively: every document of up to three statements over a vocabulary of related names
     from . import decsmall
 
-    for doc in decsmall.docs(3, (seed % 16, 16) if tier == "quick" else (0, 1)):
+    for doc in decsmall.docs(3, (seed % 32, 32) if tier == "quick" else (0, 1)):
         one(render_doc(doc), "small-scope", doc)
         res.count("small_scope_documents")
     # every EvtGen name as a daughter of a conjugated table (thorough: all; quick: a slice)
